@@ -185,6 +185,7 @@ class World(object):
         self.voc_seed = seed
         self.init = init
         self.hist_so_far = []
+        self.asked_default = {}
         self.salt = salt
         self.h = {}        # handle -> container
         self.handed = []   # (scope, printed form, uri segs)
@@ -382,7 +383,10 @@ class World(object):
             par = self.parents.get(s, "")
             up = self.h[par].valid_qualified_name(text) if par else None
             out.append({"s": s, "str": form, "uri": uri, "via": via,
-                        "now": proj_qn(now), "up": proj_qn(up)})
+                        "now": proj_qn(now), "up": proj_qn(up),
+                        # the default namespace scope s has been ASKED to use (set_default_namespace calls
+                        # of this history), whatever the library made of the request
+                        "asked": self.asked_default.get(s, [])})
         return out
 
     # ---- calls -------------------------------------------------------
@@ -683,6 +687,7 @@ class World(object):
             return run
         if op == "SetDefault":
             u = uri_text(a["u"])
+            self.asked_default[a["h"]] = list(a["u"])
             return const(lambda: c.set_default_namespace(u))
         if op == "ResQN":
             arg = QualifiedName(Namespace(a["p"], uri_text(a["ns"])), local_text(a["l"]))
